@@ -201,6 +201,56 @@ def run_shard(spec_, res):
             except Exception as e:
                 res.count("unit_switch_failed")
                 res.hist("unit_switch_failed_why", workload.exc_key(e))
+    # freshly constructed modules (nothing assigned, nothing loaded) whose list-valued payloads are changed ELEMENT BY ELEMENT
+    # in place, stand-alone and in a project
+    from rv.modules import MODULE_CLASSES
+    import random as _r2
+    for ti, T in enumerate(types):
+        if ti % spec_["n_shards"] != spec_["shard"]:
+            continue
+        cls = MODULE_CLASSES[spec.load()[T].mtype]
+        m = cls()
+        rr = _r2.Random(ti)
+        touched = 0
+        for attr in ("nv_curve", "vv_curve", "np_curve", "curve", "custom_waveform"):
+            ch = getattr(m, attr, None)
+            if ch is not None and hasattr(ch, "values") and ch.values:
+                for i in rr.sample(range(len(ch.values)), min(3, len(ch.values))):
+                    ch.values[i] = 0.25 if isinstance(ch.values[i], float) else (int(ch.values[i]) + 1) % 100
+                touched += 1
+        if hasattr(m, "drawn_waveform"):
+            for i in rr.sample(range(32), 3):
+                m.drawn_waveform.samples[i] = (m.drawn_waveform.samples[i] + 17) % 100
+            touched += 1
+        if hasattr(m, "harmonics"):
+            h = m.harmonics[rr.randrange(16)]
+            h.volume, h.width = (h.volume + 3) % 200, (h.width + 1) % 3
+            touched += 1
+        if hasattr(m, "mappings") and T == "MultiCtl":
+            m.mappings.values[0].min, m.mappings.values[0].max = 11, 22
+            touched += 1
+        if not touched:
+            continue
+        res.count("fresh_modules_edited_in_place")
+        try:
+            syn = api.Synth(m)
+            judge(res, syn.read(), build.norm(snapshot.snap_synth(syn), "before"), {"type": T, "fresh_in_place": True}, f"synth-fresh-in-place:{T}")
+            p = api.Project()
+            p.attach_module(m)
+            judge(res, p.read(), build.norm(snapshot.snap_project(p), "before"), {"type": T, "fresh_in_place": True}, f"project-fresh-in-place:{T}")
+        except Exception as e:
+            res.violation(f"C03:save-raises:{T}:{workload.exc_key(e)}", f"saving a fresh {T} after in-place payload edits raised {e!r}", {"type": T})
+    # several MetaModules side by side in ONE project (different numbers of exposed controllers)
+    for k in range(3):
+        try:
+            p = api.Project()
+            for j in range(3):
+                cm = c15.make_case(seed, 950000 + (spec_["shard"] * 3 + k) * 3 + j, tier, 1)
+                p.attach_module(cm.obj)
+            res.count("projects_with_sibling_metamodules")
+            judge(res, p.read(), build.norm(snapshot.snap_project(p), "before"), {"siblings": True, "index": k}, "project-sibling-metamodules")
+        except Exception:
+            res.count("unsaveable_cases")
     # metamodules with forced nesting (C15 workload)
     start = 900000 + spec_["shard"] * spec_["metamodules"]
     for i in range(start, start + spec_["metamodules"]):
